@@ -58,8 +58,15 @@ structure Case where
   clients : List Nat
   evs : List Ev
 
-def parseCase (ts : List String) : Option Case :=
+/-- `sched <01-string> <case>`: the last two events ran concurrently (storage-call schedule); for `holds` the
+case is the same history (handshake first), the two events share the observation taken after both. -/
+def stripSched (ts : List String) : List String :=
   match ts with
+  | "sched" :: _ :: r => r
+  | _ => ts
+
+def parseCase (ts : List String) : Option Case :=
+  match stripSched ts with
   | b :: t :: n :: cl :: evs => do
     let shape ← shapeOf b
     let ttl ← (← kv "ttl" t).toNat?
